@@ -577,6 +577,7 @@ def check_property(prop, jobs, tier, level, explanation, trusted, seed=0, quiet=
                     r.error = "driver exception: %r" % e
                 (cov if is_cov else main)[j.name] = r
         n_obl = n_dis = 0
+        traced_total = 0
         samples = []
         cover_total = cover_hit = 0
         for j in jobs:
@@ -621,9 +622,19 @@ def check_property(prop, jobs, tier, level, explanation, trusted, seed=0, quiet=
                 if what:
                     known_hits.append((j.name, key, what))
                     continue
-                if traced >= 2:
+                if traced >= 2 or traced_total >= 8:      # at most 2 replays per obligation set and 8 per run; the rest are listed in the replay files
+                    if traced_total >= 8 and traced == 0:
+                        rp_dir = os.path.join(VERIF, "replays", prop)
+                        os.makedirs(rp_dir, exist_ok=True)
+                        rp = os.path.join(rp_dir, re.sub(r"[^A-Za-z0-9_.-]", "_", "%s__%s" % (j.name, n)) + ".txt")
+                        with open(rp, "w") as f:
+                            f.write("property: %s\njob: %s (%s)\nfailed obligation: %s\ndescription: %s\ncase: %s\n(no trace / replay: more than 8 failing obligation sets in this run; see the first ones)\n" % (prop, j.name, j.kind, n, d, j.case))
+                        violations.append((j, n, d, (rp, None)))
+                        traced += 1
+                        continue
                     violations.append((j, n, d, None))
                     continue
+                traced_total += 1
                 if traced < 3:
                     inputs, text = trace_inputs(r, n)
                     traced += 1
